@@ -231,8 +231,10 @@ Definition trim_right_crlf (bb : list N) : list N := rev (drop_crlf (rev bb)).
 (* ascii85Decode.DecodeLength; a85open = reading ascii85.NewDecoder(bytes.NewReader(.)) *)
 Definition a85_decode_length (a85open : list N -> rstream) (bb : list N) (maxLen mdb : Z) : dres :=
   match rev (trim_right_crlf bb) with
-  | 62%N :: 126%N :: r => of_copy (copy_decoded (a85open (rev r)) maxLen mdb)
-  | _ => DErr EOther                     (* missing eod marker *)
+  | g :: t :: r =>
+    if ((g =? 62) && (t =? 126))%N then of_copy (copy_decoded (a85open (rev r)) maxLen mdb)
+    else DErr EOther                     (* missing eod marker *)
+  | _ => DErr EOther
   end.
 
 (* ascii85Decode.Encode *)
